@@ -596,7 +596,35 @@ type limCase struct {
 	Actions []limAction `json:"actions"`
 }
 
+// curGID returns the id of the calling goroutine (from its stack header).
+func curGID() int64 {
+	var b [64]byte
+	n := runtime.Stack(b[:], false)
+	var id int64
+	fmt.Sscanf(string(b[:n]), "goroutine %d ", &id)
+	return id
+}
+
+var stackBufs = sync.Pool{New: func() interface{} { b := make([]byte, 4<<20); return &b }}
+
+// blockedInCondWait reports whether goroutine gid is parked in sync.Cond.Wait
+// (the only way to know that a released caller really joined the waiters of the
+// execution in flight before that execution is allowed to finish).
+func blockedInCondWait(gid int64) bool {
+	bp := stackBufs.Get().(*[]byte)
+	defer stackBufs.Put(bp)
+	n := runtime.Stack(*bp, true)
+	hdr := fmt.Sprintf("goroutine %d [", gid)
+	i := strings.Index(string((*bp)[:n]), hdr)
+	if i < 0 {
+		return false
+	}
+	rest := string((*bp)[i+len(hdr) : min(n, i+len(hdr)+40)])
+	return strings.HasPrefix(rest, "sync.Cond.Wait")
+}
+
 type limCaller struct {
+	gid    atomic.Int64
 	id     int
 	input  string
 	arr    *sched.Arrival
@@ -607,11 +635,12 @@ type limCaller struct {
 }
 
 type limTask struct {
-	running bool
-	ran     bool
-	exp     time.Duration
-	out     int
-	exec    *limExec
+	running    bool
+	ran        bool
+	finishedAt time.Duration
+	exp        time.Duration
+	out        int
+	exec       *limExec
 }
 
 type limRun struct {
@@ -707,7 +736,7 @@ func (l *limRun) call(in string) {
 	c := &limCaller{id: len(l.callers), input: in, done: make(chan interface{}, 1), state: "parked"}
 	l.callers = append(l.callers, c)
 	key := l.sid + "." + in
-	go func() { c.done <- l.lim.Run(key) }()
+	go func() { c.gid.Store(curGID()); c.done <- l.lim.Run(key) }()
 	a, ok := l.sess.Next(watchdog)
 	if !ok {
 		panic(inconclusive{"watchdog: caller did not reach the yield point"})
@@ -749,7 +778,27 @@ func (l *limRun) release(who int) {
 		l.flags["release-while-running"] = true
 		c.state = "waiting"
 		c.arr.Release()
-		l.logf("release#%d(%s): execution in flight, expected to wait", c.id, c.input)
+		// go on only when the caller really waits on the execution in flight (or did
+		// something else that is observable)
+		waitFor(fmt.Sprintf("caller #%d (%s) neither joined the waiters nor ran nor returned", c.id, c.input), func() bool {
+			return len(l.runner.events) > 0 || len(c.done) > 0 || blockedInCondWait(c.gid.Load())
+		})
+		switch {
+		case len(l.runner.events) > 0:
+			e := <-l.runner.events
+			l.judgeEntry(e) // a second execution while one is in flight
+			l.anomaly["execution-not-predicted-by-model"]++
+			l.outSeq++
+			e.gate <- limRes{out: l.outSeq}
+			l.logf("release#%d(%s): execution in flight, but the runner was entered again (in flight %d)", c.id, c.input, e.n)
+		case len(c.done) > 0:
+			l.anomaly["returned-while-execution-in-flight"]++
+			c.state = "returned"
+			<-c.done
+			l.logf("release#%d(%s): execution in flight, caller returned at once", c.id, c.input)
+		default:
+			l.logf("release#%d(%s): execution in flight, waits", c.id, c.input)
+		}
 	case t.ran && l.now < t.exp:
 		l.flags["release-within-ttl"] = true
 		c.arr.Release()
@@ -758,9 +807,32 @@ func (l *limRun) release(who int) {
 		if out != t.out {
 			l.anomaly["cached-output-differs"]++
 		}
+	case t.ran && l.now == t.exp:
+		// the runner returned ttl 0 and the clock has not moved: whether "now" still
+		// counts as within the ttl is not part of the statement; accept both
+		l.flags["release-at-zero-ttl"] = true
+		c.arr.Release()
+		tm := time.NewTimer(watchdog)
+		defer tm.Stop()
+		select {
+		case v := <-c.done:
+			c.state = "returned"
+			out, _ := v.(int)
+			l.logf("release#%d(%s): ttl 0, clock unmoved -> cached %d", c.id, c.input, out)
+		case e := <-l.runner.events:
+			l.judgeEntry(e)
+			c.state, c.exec = "running", e
+			t.running, t.exec = true, e
+			l.logf("release#%d(%s): ttl 0, clock unmoved -> runs (in flight %d)", c.id, c.input, e.n)
+		case <-tm.C:
+			panic(inconclusive{fmt.Sprintf("watchdog: caller #%d (%s) neither returned nor ran", c.id, c.input)})
+		}
 	default:
 		if t.ran {
 			l.flags["release-after-ttl-expired"] = true
+			if t.exp <= t.finishedAt {
+				l.flags["release-after-non-positive-ttl"] = true
+			}
 		}
 		c.arr.Release()
 		e := l.entered(fmt.Sprintf("caller #%d (%s)", c.id, c.input))
@@ -779,7 +851,7 @@ func (l *limRun) finish(in string, ttl time.Duration) {
 	l.outSeq++
 	out := l.outSeq
 	t.exec.gate <- limRes{out: out, ttl: ttl}
-	t.running, t.ran, t.out, t.exp = false, true, out, l.now+ttl
+	t.running, t.ran, t.out, t.exp, t.finishedAt = false, true, out, l.now+ttl, l.now
 	l.logf("finish(%s) -> output %d ttl %v", in, out, ttl)
 	for _, c := range l.callers {
 		if c.input != in || (c.state != "running" && c.state != "waiting") {
@@ -828,7 +900,7 @@ func genLimCase(rnd *rand.Rand) limCase {
 		case x < 12:
 			c.Actions = append(c.Actions, limAction{Op: "release", Who: rnd.Intn(8)})
 		case x < 16:
-			c.Actions = append(c.Actions, limAction{Op: "finish", Input: ins[rnd.Intn(len(ins))], TTL: []string{"1s", "10s", "2m", "5m"}[rnd.Intn(4)]})
+			c.Actions = append(c.Actions, limAction{Op: "finish", Input: ins[rnd.Intn(len(ins))], TTL: []string{"-1s", "-1s", "0s", "1ms", "1s", "10s", "2m", "5m"}[rnd.Intn(8)]})
 		default:
 			c.Actions = append(c.Actions, limAction{Op: "advance", D: []string{"1s", "9s", "11s", "61s", "61s", "3m", "6m"}[rnd.Intn(7)]})
 		}
@@ -846,7 +918,7 @@ func runLimCase(c limCase) (l *limRun, inc string) {
 	defer func() {
 		if p := recover(); p != nil {
 			if i, ok := p.(inconclusive); ok {
-				inc = i.reason
+				inc = i.reason + " observed so far: " + strings.Join(l.trace, " | ")
 			} else {
 				panic(p)
 			}
@@ -1101,7 +1173,8 @@ func (q *quickRunner) Run(input interface{}) (interface{}, time.Duration) {
 	n := q.nexec.Add(1)
 	runtime.Gosched()
 	c.Add(-1)
-	return int(n), time.Duration(n%3) * 30 * sec
+	// ttl per run: negative, zero, tiny, normal
+	return int(n), []time.Duration{-sec, 0, time.Millisecond, 30 * sec, 60 * sec}[n%5]
 }
 
 func stressLimiter(rnd *rand.Rand, goroutines, perG int) (calls, execs int64, viol []rcViol) {
@@ -1190,7 +1263,7 @@ func flagList(m map[string]bool) []string {
 
 func TestC29(t *testing.T) {
 	run := ev.Start(t, "C29", "exploration",
-		"PRNG-generated action schedules executed by one controlling goroutine against the real objects on the mock clock. RequestCache: 8-21 actions over 1-3 keys (start / finish ok|error|not-found / advance around the TTLs, cleanup interval and busy timeout), 1-2 workers. Limiter: 8-19 actions over 1-2 inputs (call = caller parks at the yield point holding its task / release / finish with ttl 0..5m / advance up to 6m, GC interval 1m). IntervalTrap: rounds of barrier-released concurrent Trap calls with the clock advanced past or short of the interval. Plus free-running stress of RequestCache and Limiter. "+
+		"PRNG-generated action schedules executed by one controlling goroutine against the real objects on the mock clock. RequestCache: 8-21 actions over 1-3 keys (start / finish ok|error|not-found / advance around the TTLs, cleanup interval and busy timeout), 1-2 workers. Limiter: 8-19 actions over 1-2 inputs (call = caller parks at the yield point holding its task / release / finish with runner ttl negative, 0, 1ms .. 5m / advance up to 6m, GC interval 1m). IntervalTrap: rounds of barrier-released concurrent Trap calls with the clock advanced past or short of the interval. Plus free-running stress of RequestCache and Limiter. "+
 			"A case is one schedule, distinct by its action list; non-trivial when it contained a Start while the key was pending / parked without worker / error-cached (RequestCache), a release while another caller's execution was in flight or a GC pass while a parked caller held an idle task (Limiter), a due round (IntervalTrap).")
 	defer run.Finish()
 	run.Assume("the bodies / runners report the number of executions in flight per key at entry; the controller knows the mock time exactly")
